@@ -18,7 +18,7 @@ From XV Require Import Base.Str Base.Eqb Base.PyInt Spec.XsdPrims Model.Bind Mod
   Proofs.ParserWitness Proofs.ReaderWitness Proofs.ReaderRefute Proofs.ReaderConv Proofs.ReaderAgree Proofs.ReaderMaps
   Proofs.ConvQName
   Proofs.ParserInvNs Proofs.ParserInvVal Proofs.ParserInvValC05 Proofs.ParserInvCombine
-  Proofs.ParserInvWs Proofs.ParserInvAttrs.
+  Proofs.ParserCtx Proofs.ParserCtxGuard Proofs.ParserInvWs Proofs.ParserInvAttrs.
 From XV Require Model.ConvQName.
 Import ListNotations.
 
@@ -116,10 +116,74 @@ Theorem C09_prefix_renaming_refuted :
 Proof. exact prefix_renaming_refuted. Qed.
 Print Assumptions C09_prefix_renaming_refuted.
 
-(* (b3) PARTIAL — function level: QName content re-spelled consistently with the renamed map
-   (other prefix, or default-namespace spelling) denotes the same name.  The event-level
-   renaming theorem is NOT proved (statement and what is missing: note at the end of
-   Proofs/ParserInvNs.v). *)
+(* (b3) consistent RENAMING / re-binding of the prefixes in P, event level: the maps may differ
+   arbitrarily on the prefixes in P (and only there); the xsi:type value is re-spelled so that it
+   resolves to the same name and is expanded alike by parse_any_attribute; every other attribute
+   value and every text is unchanged and uses none of the prefixes in P (`good P`: neither the
+   string, nor its stripped form, nor one of its whitespace tokens has a lexical prefix in P).
+   Converter law conv_prefix_local (QNameConverter.resolve looks up the prefix of ITS text only),
+   proved for C05's model; guard: no class declares an attribute field named xsi:type. *)
+Theorem C09_prefix_renaming : forall P cfg c u root evs evs',
+  conv_prefix_local c -> no_xsi_type_attr u = true ->
+  Forall2 (renamed P c) evs evs' ->
+  parse cfg c u root evs = parse cfg c u root evs'.
+Proof. exact prefix_renaming_invariant. Qed.
+Print Assumptions C09_prefix_renaming.
+
+(* as evaluated on recorded streams (P = every prefix of both streams) *)
+Theorem C09_prefix_renaming_guarded : forall P cfg c u root e1 e2,
+  conv_prefix_local c -> no_xsi_type_attr u = true ->
+  forallb2 (renamedb P c) (strip_ns e1) (strip_ns e2) = true ->
+  parse cfg c u root e1 = parse cfg c u root e2.
+Proof. exact prefix_renaming_guarded. Qed.
+Print Assumptions C09_prefix_renaming_guarded.
+
+Theorem C09_conv_prefix_local_nonvacuous : conv_prefix_local qconv.
+Proof. exact qconv_prefix_local. Qed.
+Print Assumptions C09_conv_prefix_local_nonvacuous.
+
+(* the generic form: any relation between the CONTEXTS (attributes, map) of the start events that
+   every read of the parser respects (A1 xsi:type, A2 xsi:nil, A3 union candidates, A4 bind_attrs,
+   A5 parse_any_attributes, A6 every text conversion of a `good` text) *)
+Theorem C09_parse_reads_contexts_only : forall c u (CR : ctx -> ctx -> Prop) (MP : xmeta -> Prop) (good : str -> Prop),
+  (forall cl m, u_meta u cl = Some m -> MP m) ->
+  (forall a n a' n', CR (a, n) (a', n') -> xsi_type_of c a n = xsi_type_of c a' n') ->
+  (forall a n a' n', CR (a, n) (a', n') -> xsi_nil_of a = xsi_nil_of a') ->
+  (forall a n a' n', CR (a, n) (a', n') -> forall tys, filter_candidates c u a tys = filter_candidates c u a' tys) ->
+  (forall a n a' n', CR (a, n) (a', n') -> forall cfg en, MP (en_meta en) ->
+     bind_attrs cfg c (with_ctx en a n) = bind_attrs cfg c (with_ctx en a' n')) ->
+  (forall a n a' n', CR (a, n) (a', n') -> parse_any_attributes a n = parse_any_attributes a' n') ->
+  (forall a n a' n', CR (a, n) (a', n') -> forall failc m var txt tys fmt, ogood good txt ->
+     parse_var c failc m var txt n tys fmt = parse_var c failc m var txt n' tys fmt) ->
+  forall cfg root evs evs', Forall2 (cev_rel CR good) evs evs' ->
+  parse cfg c u root evs = parse cfg c u root evs'.
+Proof. exact parse_C. Qed.
+Print Assumptions C09_parse_reads_contexts_only.
+
+(* renamed maps AND re-spelled xsi:type: both parses Ok and equal; renaming the maps alone fails *)
+Example C09_prefix_renaming_nonvacuous :
+  parse default_config qconv u_any_attrs (Some root_any_attrs) ex_evs
+  = parse default_config qconv u_any_attrs (Some root_any_attrs) ex_evs'
+  /\ (exists v, parse default_config qconv u_any_attrs (Some root_any_attrs) ex_evs = Ok v []
+             /\ parse default_config qconv u_any_attrs (Some root_any_attrs) ex_evs' = Ok v [])
+  /\ ex_evs <> ex_evs'
+  /\ parse default_config qconv u_any_attrs (Some root_any_attrs) (map (rename_event [112]%N [122]%N) ex_evs)
+     = Err ConverterError.
+Proof. exact prefix_renaming_example. Qed.
+
+(* the side condition `good` cannot be dropped (finding C09-F3 again) *)
+Theorem C09_prefix_renaming_side_condition_needed :
+  exists P cfg c u root evs evs',
+    conv_prefix_local c /\ no_xsi_type_attr u = true
+    /\ Forall2 (renamed_gen P c (fun _ => True)) evs evs'
+    /\ parse cfg c u root evs <> parse cfg c u root evs'.
+Proof. exact good_side_condition_needed. Qed.
+Print Assumptions C09_prefix_renaming_side_condition_needed.
+
+(* PARTIAL — QName-typed TEXT / ordinary QName-typed attributes re-spelled with the new prefix:
+   function level only (in C09_prefix_renaming such values must stay identical and `good`).
+   QName content re-spelled consistently with the renamed map (other prefix, default-namespace
+   spelling, XSD padding) denotes the same name: *)
 Theorem C09_qname_respelling_partial : forall po po' local m m' a b a' b',
   ConvQName.is_ncname local = true ->
   match po with None => True | Some p => ConvQName.is_ncname p = true end ->
